@@ -445,6 +445,44 @@ def replay_one(ctx, pool, payload):
                                         finding_ids=payload.get("finding_ids")), signature="replay", finding_ids=payload.get("finding_ids"))
 
 
+def run_names(ctx, pool, cov):
+    """CREATE TABLE column lists (ValueStoreNames.tla / Values!CreateOK): a list that names a column twice is refused; where the
+    table is created, one distinct value per column is stored and every one of them is read back."""
+    got = []
+    res = vlib.run_tlc(ctx, "ValueStoreNames", "ValueStoreNames.cfg", workers=1, timeout=300, tag="names", on_scn=lambda k, o: got.append(o))
+    vlib.tlc_must_ok(ctx, res, "ValueStoreNames")
+    lists = got[0]["elems"]
+    if not any(x["ok"] for x in lists) or all(x["ok"] for x in lists):
+        raise vlib.Undecided("ValueStoreNames: no accepted or no refused column list")
+    reqs = [dict(path=path, schema=[], steps=[], names=x["names"], _x=x) for x in lists for path in ("direct", "text")]
+    bad = []
+
+    def on_result(req, r):
+        x = req["_x"]
+        cov["evaluations"] += 1
+        if r.get("fatal") or r.get("created") is None:
+            bad.append((req, r, "the engine died or the harness failed: %s" % (r.get("err") or r.get("viol"))))
+        elif not x["ok"] and r["created"]:
+            bad.append((req, r, "CREATE TABLE t (%s) was accepted, the specification refuses a column list that names a column twice; "
+                                "stored %s, read back %s" % (", ".join(n + " INT" for n in x["names"]), [11 + j for j in range(len(x["names"]))], r.get("read"))))
+        elif x["ok"] and (not r["created"] or r.get("err") or r.get("read") != [11 + j for j in range(len(x["names"]))]):
+            bad.append((req, r, "CREATE TABLE t (%s): created=%s err=%s, stored %s, read back %s" % (
+                ", ".join(n + " INT" for n in x["names"]), r["created"], r.get("err"), [11 + j for j in range(len(x["names"]))], r.get("read"))))
+    pool.run_all(reqs, on_result, chunk=4)
+    cov["column_lists"] = dict(lists=len(lists), refused_by_spec=sum(1 for x in lists if not x["ok"]), executions=len(reqs), failing=len(bad))
+    seen = set()
+    for req, r, what in bad:
+        key = "column-names:" + ("accepted-duplicate" if not req["_x"]["ok"] else "wrong")
+        if key in seen:
+            continue
+        seen.add(key)
+        again = []
+        pool.run_all([dict(path=req["path"], schema=[], steps=[], names=req["names"])], lambda q, rr: again.append(rr), chunk=1)
+        if not again or again[0].get("created") != r.get("created") or again[0].get("read") != r.get("read"):
+            raise vlib.Undecided("a failing column-list scenario did not fail again when repeated: %s" % what)
+        vlib.report_violation(ctx, dict(kind="valstore-names", path=req["path"], names=req["names"], detail=[what], observed=r), signature=key, finding_ids=[])
+
+
 def new_cov():
     return dict(evaluations=0, distinct_nontrivial=0, samples=[], states=0, transitions=0, configs=[],
                 rule="one evaluation = one TLC-generated scenario (action path ending in a Get) executed on the real engine on one input "
@@ -465,6 +503,7 @@ def run(ctx):
             return
         failing = run_configs(ctx, pool, MC[ctx.tier], cov, st)
         confirm_failing(ctx, pool, failing)
+        run_names(ctx, pool, cov)
         cov["failing_signatures"] = sorted(failing)
     finally:
         pool.close()
